@@ -291,10 +291,10 @@ class PrintRecorder:
 # --------------------------------------------------------------------------------------
 # Engine façade
 # --------------------------------------------------------------------------------------
-RLIMIT_DEFAULT = 5_000_000        # per library-level check
+RLIMIT_DEFAULT = 4_000_000        # per library-level check
 RLIMIT_SUB = 1_000_000            # per steering sub-check
 RLIMIT_RUN_BUDGET = 30_000_000    # per run, all checks together (deterministic hang guard)
-REAL_TIMEOUT_GUARD_MS = 8000
+REAL_TIMEOUT_GUARD_MS = 25000
 STEP_CAP_DEFAULT = 400
 
 
